@@ -327,7 +327,7 @@ func checkExportKeepsNonce(c *core.Ctx, rule string) {
 			if len(b.Instrs) > 0 {
 				if r, ok := b.Instrs[len(b.Instrs)-1].(*ssa.Return); ok {
 					if !nonceZero {
-						bad = c.PosStr(r.Pos())
+						bad = posOrEnd(c, r.Pos())
 					}
 					return
 				}
